@@ -37,7 +37,9 @@ def bounds(mask):
     return [BN[b] for b in range(3) if mask & (1 << b)]
 
 
-def fn_src(name, mask, form, byval, vis="pub "):
+def fn_src(name, mask, form, byval, vis="pub ", asy=False):
+    if asy:
+        vis = vis + "async "
     bs = bounds(mask)
     ty = "D" if byval else "&D"
     if form == "impl":
@@ -62,19 +64,22 @@ def fn_src(name, mask, form, byval, vis="pub "):
     raise KeyError(form)
 
 
-def attr(mock):
+def attr(mock, maybe_send=False):
     a = {"none": "", "mockall": ", mockall", "mockall_false": ", mockall = false", "api_only": ", mock_api = TrMock",
          "unimock": ", mock_api = TrMock, unimock", "unimock_false": ", mock_api = TrMock, unimock = false"}[mock]
-    return "#[::entrait::entrait(pub Tr%s)]" % a
+    return "#[::entrait::entrait(pub Tr%s%s)]" % (a, ", ?Send" if maybe_send else "")
 
 
 def enumerate_states(tier):
     states = []
-    for mask, form, byval, mock, feature in itertools.product(range(8), FORMS, (False, True), MOCKS, (False, True)):
+    for mask, form, byval, mock, feature, asy in itertools.product(range(8), FORMS, (False, True), MOCKS, (False, True), (False, True, "ms")):
         if mock == "unimock" and not feature:
             continue  # the unimock derive needs the crate feature
-        states.append(dict(key="b_fn_%d_%s_%s_%s_%s" % (mask, form, "val" if byval else "ref", mock, "fon" if feature else "foff"),
-                           container="fn", s1=mask, form=form, byval=[byval], mock=mock, feature=feature))
+        if asy and (tier != "thorough") and (mock not in ("none", "mockall") or form in ("split", "dup")):
+            continue  # async / async + ?Send: on the main mock settings and declaration forms
+        states.append(dict(key="b_fn_%d_%s_%s_%s_%s%s" % (mask, form, "val" if byval else "ref", mock, "fon" if feature else "foff",
+                                                         {False: "", True: "_async", "ms": "_asyncms"}[asy]),
+                           container="fn", s1=mask, form=form, byval=[byval], mock=mock, feature=feature, asy=asy))
     for m1, m2, bv, mock in itertools.product(range(8), range(8), ((False, False), (False, True), (True, False)), ("none", "mockall", "api_only")):
         for feature in ((False, True) if tier == "thorough" else (False,)):
             states.append(dict(key="b_mod_%d_%d_%s%s_%s_%s" % (m1, m2, "v" if bv[0] else "r", "v" if bv[1] else "r", mock, "fon" if feature else "foff"),
@@ -119,7 +124,7 @@ def render(s):
     key = s["key"]
     L = ["mod %s {" % key, "    use super::rt;", "    use super::pr::*;"]
     if s["container"] == "fn" or s["container"] == "static":
-        L += ["    " + attr(s["mock"]), "    " + fn_src("f", s["s1"], s["form"], s["byval"][0])]
+        L += ["    " + attr(s["mock"], s.get("asy") == "ms"), "    " + fn_src("f", s["s1"], s["form"], s["byval"][0], asy=bool(s.get("asy")))]
     else:
         L += ["    " + attr(s["mock"]), "    pub mod m {", "        use super::*;",
               "        " + fn_src("f1", s["s1"], "inline", s["byval"][0]),
@@ -194,7 +199,8 @@ def evaluate(states, report, tier):
                            sample=dict(source=u.src.replace("\n        bits.push", " bits.push")[:1500]), evals=48)
             for sig, detail in problems:
                 tags = {"container:" + s["container"], "mock:" + s["mock"], "feature:" + ("on" if feature else "off"),
-                        "byval" if any(s["byval"]) else "byref", "form:" + s.get("form", "mixed")}
+                        "byval" if any(s["byval"]) else "byref", "form:" + s.get("form", "mixed"),
+                        {False: "sync", True: "async", "ms": "async-maybe-send", None: "sync"}[s.get("asy")]}
                 report.violation(s["key"], tags, sig, detail, state=s, source=engine.standalone_source(u, hdr),
                                  meta=dict(mode="run", feature=feature))
 
